@@ -85,6 +85,7 @@ VNAMES = ('nonlinear', 'linear')
 def shards(tier, seed):
     n = 16 if tier == 'quick' else 64
     per = 26 if tier == 'quick' else 160
+    per = int(os.environ.get('OMV_C33_PER', per))       # development aid (reduced runs end INCONCLUSIVE)
     return [{'seed': seed * 1000000 + i * 1000, 'n': per} for i in range(n)]
 
 
